@@ -98,6 +98,10 @@ class SeqGen:
         r = self.rng
         out = []
         for _ in range(k):
+            if self.p.get("future_ack") and r.chance(1, 3):
+                # an id this subscription has not issued yet (it will be, by one of the next pulls)
+                out.append(str(s.next_ack + r.below(3)))
+                continue
             c = r.below(10)
             if s.out and c < 7:
                 out.append(str(r.choice(s.out)[0]))
@@ -577,7 +581,15 @@ LISTING = {
     "weights": {"ctopic": 14, "dtopic": 7, "csub": 14, "dsub": 7, "lists": 12, "gsub": 1, "pub": 1},
 }
 
-PROFILES = {"listing": LISTING, "general": GENERAL, "data": DATA_PLANE, "deadlines": DEADLINES, "namespace": NAMESPACE,
+FUTUREACK = {
+    # acknowledgements (and modifications) naming ack ids that are only issued LATER: they must stay without effect
+    # when those ids are finally handed out, left alone, and run into their deadline
+    "projects": ["p1"], "topics": ["t1"], "subs": ["s1", "s2"], "future_ack": True,
+    "adv": [1000000, 5000000, 9999000, 10000000, 10100000, 10200000, 11000000, 21000000],
+    "weights": {"csub": 1, "pub": 10, "pull": 12, "ack": 10, "mod": 3, "adv": 14, "stats": 4},
+}
+
+PROFILES = {"futureack": FUTUREACK, "listing": LISTING, "general": GENERAL, "data": DATA_PLANE, "deadlines": DEADLINES, "namespace": NAMESPACE,
             "malformed": MALFORMED, "batches": BATCHES}
 
 
